@@ -10,7 +10,8 @@
    multi-language split; and for the main loop of the expander on every
    token list of plain text, special sequences, undeclared control words,
    comments, braces and nested pass-through macros (C07_expander_total_on_class:
-   fuel 5n+1 suffices, the result is Ok).  Not proved: the same two claims
+   the fuel is bounded by a weight of the token list (a macro weighs 5 plus
+   the length of its body, any other token 1), the result is Ok).  Not proved: the same two claims
    for the expander on arbitrary input
    (coq/model/{Parser,Expand,Math,Exec}.v); there the check relies on the
    correspondence run (outcome class of model and implementation on the
@@ -61,12 +62,13 @@ Proof. exact (fun lang multi simple reader =>
 Print Assumptions C07_collections_present.
 
 (* (5) the main loop of the expander terminates and returns on every token
-   list of the class: no exception, no fatal exit, fuel 5n+1 is enough *)
-Theorem C07_expander_total_on_class : forall rd toks rout st,
-  bcl py_tables (macros st) toks ->
-  exists r, exec py_tables rd (S (5 * length toks)) (TSeq toks None rout) st = Ok r.
+   list of the class: no exception, no fatal exit, once the fuel exceeds the
+   weight mu of the list *)
+Theorem C07_expander_total_on_class : forall rd fuel toks rout st,
+  bcl py_tables (macros st) toks -> (mu (macros st) toks < fuel)%nat ->
+  exists r, exec py_tables rd fuel (TSeq toks None rout) st = Ok r.
 Proof.
-  exact (fun rd => exec_args_total_len py_tables rd (eq_refl true)).
+  exact (fun rd => exec_args_total py_tables rd (eq_refl true)).
 Qed.
 Print Assumptions C07_expander_total_on_class.
 
@@ -75,7 +77,7 @@ Print Assumptions C07_expander_total_on_class.
 Theorem C07_documents_of_the_class : forall rd st latex,
   doc_in_class py_tables st latex = true ->
   exists r, parser_work py_tables
-              (exec py_tables rd (S (5 * length (fst (scan (t_scan py_tables) latex)))))
+              (exec py_tables rd (S (mu (macros st) (fst (scan (t_scan py_tables) latex)))))
               st latex = Ok r.
 Proof.
   exact (fun rd => parser_work_class_total py_tables rd (eq_refl true) (fun c => eq_refl)).
